@@ -8,7 +8,9 @@
      write      bytes of a block are written only by its sole owner (count 1):
                 a block other handles can read (count > 1) is immutable  [C02]
      realloc    only the sole owner resizes / moves a block               [C02]
-     dealloc    a block is given back once, after its count reached zero  [C03]
+     dealloc    a block is given back once, by its last owner: its count is 0
+                (decremented to zero) or 1 (the sole owner frees without
+                touching the count), never above                          [C03]
      any access only while the block is live (no use after free)          [C03]
      end        every block has been given back (no leak)                 [C03]
 
@@ -56,7 +58,7 @@ Judge(e) ==
     [] e.k = "load"    -> IF e.v # cnt[b] THEN "log:count" ELSE "ok"
     [] e.k = "write"   -> IF e.v = 0 THEN "ok" ELSE IF cnt[b] > 1 THEN "shared-write" ELSE IF cnt[b] = 0 THEN "write-unowned" ELSE "ok"
     [] e.k = "realloc" -> IF cnt[b] > 1 THEN "shared-realloc" ELSE "ok"
-    [] e.k = "dealloc" -> IF cnt[b] > 0 THEN "free-while-referenced" ELSE "ok"
+    [] e.k = "dealloc" -> IF cnt[b] > 1 THEN "free-while-referenced" ELSE "ok"
     [] OTHER           -> "ok"
 
 \* the protocol state after the event (resynchronised with what the code saw where it deviates)
